@@ -191,7 +191,7 @@ def loaded_vs_ref(S, D, max_out=12):
     return out
 
 
-def saved_consistency(S, b, gaps=False, max_out=16):
+def saved_consistency(S, b, gaps=False, max_out=16, rates_consistent=True):
     """C03 oracle on the bytes of a saved file (S = snapshot of the saving object, may be None)."""
     out = []
 
@@ -260,6 +260,12 @@ def saved_consistency(S, b, gaps=False, max_out=16):
         add("header/first_frame", "first frame word is %d (frames are numbered from 1)" % h["first"])
     if prate is None or not (abs(prate - f32_of_bits(h["rate_bits"])) <= 1e-4):
         add("counts/rate", "header rate %r, POINT:RATE %r" % (f32_of_bits(h["rate_bits"]), prate))
+    # header sub-frames vs the rate parameters (when channels are in use and both rates are set)
+    arate = fval(b"ANALOG", b"RATE")
+    if ahas and aused and prate and arate is not None and not gaps and rates_consistent:
+        ratio = arate / prate
+        if int(ratio + 0.5) != h["sub"]:
+            add("counts/subframes_vs_rates", "header sub-frames %d, ANALOG:RATE / POINT:RATE = %r / %r" % (h["sub"], arate, prate))
     # float-format marker: a negative float in the scale word
     sc = h["scale"]
     if not (sc < 0):
